@@ -238,6 +238,7 @@ Clauses(e) == CASE e.ev = "hash" -> HashC(e)
                 [] e.ev = "zoc" -> ZocC(e)
                 [] e.ev = "uniq" -> UniqC(e)
                 [] e.ev = "uniq_bad" -> UniqBadC(e)
+                [] e.ev = "harness_abort" -> << <<"harness_abort", FALSE>> >>   \* the harness could not digest what the crate returned
                 [] OTHER -> << <<"unknown_event", FALSE>> >>
 
 Init == l = 1 /\ bad = <<>>
